@@ -19,7 +19,7 @@ package dns
 
 // every envelope is verified whenever a TSIG provider is configured: success implies the verification of
 // this very envelope returned nil
-//@ func (*Transfer).ReadMsg [C15 C11:chain]
+//@ func (*Transfer).ReadMsg [C15 C11]
 //@   opt no-safety
 //@   requires t != nil
 //@   exit verified: ret1 == nil && ret0 != nil && callres("tsigProvider") != nil ==> called("TsigVerifyWithProvider") && callres("TsigVerifyWithProvider") == nil
@@ -63,6 +63,9 @@ package dns
 //@   exit told: sends() == s0 + 1
 //@   assert at "c <- &Envelope{nil, err}" readerr: err != nil && err == callres("ReadMsg", 1)
 //@   loop * invariant 0 <= n && n < 3 && !(axfr && n == 2)
+// RFC 1995 4: the answer is incremental as soon as an SOA with another serial than the server's current one has been
+// seen, in whichever envelope it arrives - from then on only the third occurrence of the current SOA ends the transfer
+//@   loop 2 invariant style: forall j in 0..rangeindex+1 :: isptrtype(in.Answer[j], SOA) && asptr(in.Answer[j], SOA).Serial != serial ==> !axfr
 
 // outgoing side: every envelope becomes one reply to the query (SetReply, AA set) that carries exactly the
 // envelope's records after nothing else; a write error ends the transfer and is returned; later envelopes are
